@@ -578,5 +578,397 @@ theorem replay_disconnected_twice {pre mid post : List Event} {id : Nat} {ad ad'
         · cases h
     · cases h
 
+/-! ### lookups -/
+
+theorem clientAddr_iff {s : NetcodeServer} (hs : SlotsOK s.clients) {id : Nat} {ad : Addr} :
+    s.clientAddr id = some ad ↔ ∃ i c, At s.clients i c ∧ c.clientId = id ∧ c.addr = ad := by
+  unfold NetcodeServer.clientAddr
+  simp only [Option.map_eq_some_iff]
+  constructor
+  · rintro ⟨c, hc, rfl⟩
+    obtain ⟨h1, i, h2⟩ := hs.findById_iff.mp hc
+    exact ⟨i, c, h2, h1, rfl⟩
+  · rintro ⟨i, c, h2, h1, rfl⟩
+    exact ⟨c, hs.findById_iff.mpr ⟨h1, i, h2⟩, rfl⟩
+
+theorem userData_iff {s : NetcodeServer} (hs : SlotsOK s.clients) {id : Nat} {ud : Bytes} :
+    s.userData id = some ud ↔ ∃ i c, At s.clients i c ∧ c.clientId = id ∧ c.userData = ud := by
+  unfold NetcodeServer.userData
+  simp only [Option.map_eq_some_iff]
+  constructor
+  · rintro ⟨c, hc, rfl⟩
+    obtain ⟨h1, i, h2⟩ := hs.findById_iff.mp hc
+    exact ⟨i, c, h2, h1, rfl⟩
+  · rintro ⟨i, c, h2, h1, rfl⟩
+    exact ⟨c, hs.findById_iff.mpr ⟨h1, i, h2⟩, rfl⟩
+
+theorem isClientConnected_iff {s : NetcodeServer} {id : Nat} :
+    s.isClientConnected id = true ↔ ∃ i c, At s.clients i c ∧ c.clientId = id := by
+  unfold NetcodeServer.isClientConnected
+  rw [findSlot_isSome]
+  cases h : findClientById s.clients id with
+  | none =>
+    simp only [Option.isSome_none, Bool.false_eq_true, false_iff, not_exists, not_and]
+    exact findById_none.mp h
+  | some c =>
+    obtain ⟨h1, i, h2⟩ := findById_some h
+    simp only [Option.isSome_some, true_iff]
+    exact ⟨i, c, h2, h1⟩
+
+/-- `clients_id()` lists the ids of the occupied slots, without repetition -/
+theorem clientsId_nodup {s : NetcodeServer} (hs : SlotsOK s.clients) : s.clientsId.Nodup := by
+  unfold NetcodeServer.clientsId
+  rw [List.nodup_iff_pairwise_ne]
+  have key : ∀ (cl : Slots), (∀ i j ci cj, At cl i ci → At cl j cj → ci.clientId = cj.clientId → i = j) →
+      List.Pairwise (· ≠ ·) (cl.filterMap fun c => c.map (·.clientId)) := by
+    intro cl
+    induction cl with
+    | nil => intro _; simp
+    | cons x rest ih =>
+      intro h
+      have hrest := ih (fun i j ci cj hi hj he => by
+        have := h (i + 1) (j + 1) ci cj (by simpa using hi) (by simpa using hj) he
+        omega)
+      cases x with
+      | none => simpa [List.filterMap_cons] using hrest
+      | some c =>
+        simp only [List.filterMap_cons, Option.map_some, List.pairwise_cons]
+        refine ⟨?_, hrest⟩
+        intro id hid
+        simp only [List.mem_filterMap, Option.map_eq_some_iff] at hid
+        obtain ⟨x, hx, c', rfl, rfl⟩ := hid
+        obtain ⟨j, hj⟩ := mem_at hx
+        intro e
+        have := h 0 (j + 1) c c' (by simp) (by simpa using hj) e
+        omega
+  exact key s.clients hs.ids
+
+/-- **Lookups by id answer with the session the log says is live for that id.** -/
+theorem Reach.lookups {a : AEAD} {s : NetcodeServer} {log : List Event} {L : List Sess} (hr : Reach a s log)
+    (hL : replay log [] = some L) (id : Nat) :
+    (∀ ad, s.clientAddr id = some ad ↔ ∃ ud, (id, ad, ud) ∈ L) ∧
+    (∀ ud, s.userData id = some ud ↔ ∃ ad, (id, ad, ud) ∈ L) ∧
+    (s.isClientConnected id = true ↔ ∃ ad ud, (id, ad, ud) ∈ L) ∧
+    (∀ ad ud, s.clientAddr id = some ad → s.userData id = some ud → (id, ad, ud) ∈ L) := by
+  obtain ⟨L', hL', ha⟩ := hr.log
+  rw [hL] at hL'; cases hL'
+  have hs := hr.inv.slots
+  refine ⟨?_, ?_, ?_, ?_⟩
+  · intro ad
+    rw [clientAddr_iff hs]
+    constructor
+    · rintro ⟨i, c, h1, h2, h3⟩; exact ⟨c.userData, (ha id ad c.userData).mpr ⟨i, c, h1, h2, h3, rfl⟩⟩
+    · rintro ⟨ud, h⟩; obtain ⟨i, c, h1, h2, h3, _⟩ := (ha id ad ud).mp h; exact ⟨i, c, h1, h2, h3⟩
+  · intro ud
+    rw [userData_iff hs]
+    constructor
+    · rintro ⟨i, c, h1, h2, h3⟩; exact ⟨c.addr, (ha id c.addr ud).mpr ⟨i, c, h1, h2, rfl, h3⟩⟩
+    · rintro ⟨ad, h⟩; obtain ⟨i, c, h1, h2, _, h4⟩ := (ha id ad ud).mp h; exact ⟨i, c, h1, h2, h4⟩
+  · rw [isClientConnected_iff]
+    constructor
+    · rintro ⟨i, c, h1, h2⟩; exact ⟨c.addr, c.userData, (ha id c.addr c.userData).mpr ⟨i, c, h1, h2, rfl, rfl⟩⟩
+    · rintro ⟨ad, ud, h⟩; obtain ⟨i, c, h1, h2, _, _⟩ := (ha id ad ud).mp h; exact ⟨i, c, h1, h2⟩
+  · intro ad ud h1 h2
+    obtain ⟨i, c, hc, hid, had⟩ := (clientAddr_iff hs).mp h1
+    obtain ⟨j, c', hc', hid', hud⟩ := (userData_iff hs).mp h2
+    have : i = j := hs.ids i j c c' hc hc' (by rw [hid, hid'])
+    subst this
+    have := at_inj hc hc'; subst this
+    exact (ha id ad ud).mpr ⟨i, c, hc, hid, had, hud⟩
+
+/-- **…and that session is the one announced by the latest `connected id addr ud` event, with no `disconnected id addr`
+    after it.** -/
+theorem Reach.lookup_session {a : AEAD} {s : NetcodeServer} {log : List Event} (hr : Reach a s log) {id : Nat}
+    {ad : Addr} {ud : Bytes} (h1 : s.clientAddr id = some ad) (h2 : s.userData id = some ud) :
+    ∃ l1 l2, log = l1 ++ .connected id ad ud :: l2 ∧ Event.disconnected id ad ∉ l2 := by
+  obtain ⟨L, hL, _⟩ := hr.log
+  have hm := (hr.lookups hL id).2.2.2 ad ud h1 h2
+  rcases replay_mem_origin log [] L _ hL hm with ⟨h, _⟩ | h
+  · cases h
+  · exact h
+
+/-- payload routing: `generate_payload_packet id` addresses the datagram to the live session of `id` -/
+theorem Reach.sendPayload_target {a : AEAD} {s s' : NetcodeServer} {log : List Event} {L : List Sess}
+    (hr : Reach a s log) (hL : replay log [] = some L) {id : Nat} {payload out : Bytes} {ad : Addr}
+    (h : s.generatePayloadPacket a id payload = .ok ((ad, out), s')) :
+    s.clientAddr id = some ad ∧ ∃ ud, (id, ad, ud) ∈ L := by
+  obtain ⟨i, c, _, hc, hid, had, _, _⟩ := generatePayload_ok h
+  have h1 : s.clientAddr id = some ad := (clientAddr_iff hr.inv.slots).mpr ⟨i, c, hc, hid, had.symm⟩
+  exact ⟨h1, ((hr.lookups hL id).1 ad).mp h1⟩
+
+/-- a payload surfaced from a datagram of source `addr` carries the id of the live session connected from `addr` -/
+theorem Reach.payload_source {a : AEAD} {s s' : NetcodeServer} {log : List Event} {L : List Sess}
+    (hr : Reach a s log) (hL : replay log [] = some L) {addr : Addr} {buf p : Bytes} {id : Nat}
+    (h : s.processPacket a addr buf = .ok (.payload id p, s')) :
+    s.clientAddr id = some addr ∧ ∃ ud, (id, addr, ud) ∈ L := by
+  obtain ⟨i, c, sq, w', hc, hid, had, _⟩ := ppOut_payload (pp_ok hr.inv h)
+  have h1 : s.clientAddr id = some addr := (clientAddr_iff hr.inv.slots).mpr ⟨i, c, hc, hid, had⟩
+  exact ⟨h1, ((hr.lookups hL id).1 addr).mp h1⟩
+
+/-! ### capacity -/
+
+theorem hcr_frame {a : AEAD} {s : NetcodeServer} {addr : Addr} {v : Bytes} {pid expire : Nat} {xnonce data : Bytes}
+    {R : NetcodeServer.SRes} {r : ServerResult} {s' : NetcodeServer}
+    (ho : HcrOut a s addr v pid expire xnonce data R) (hr : HcrRes R r s') :
+    s'.maxClients = s.maxClients ∧ s'.protocolId = s.protocolId ∧ s'.connectKey = s.connectKey ∧
+    s'.challengeKey = s.challengeKey ∧ s'.publicAddresses = s.publicAddresses ∧ s'.currentTime = s.currentTime ∧
+    s'.secure = s.secure := by
+  cases ho with
+  | err e => rcases hr with h | ⟨rfl, e', h⟩ <;> cases h; simp
+  | none => rcases hr with h | ⟨rfl, e', h⟩ <;> cases h; simp
+  | deniedErr t s1 e hacc hstep hfull =>
+    rcases hr with h | ⟨rfl, e', h⟩ <;> cases h
+    have := entryStep_fields hstep; simp [this]
+  | denied t s1 out hacc hstep hfull hen =>
+    rcases hr with h | ⟨rfl, e', h⟩ <;> cases h
+    have := entryStep_fields hstep; simp [this]
+  | challengeErr t s1 e hacc hstep hfull =>
+    rcases hr with h | ⟨rfl, e', h⟩ <;> cases h
+    have := entryStep_fields hstep; simp [this]
+  | challenge t s1 pkt out hacc hstep hfull hgen hen =>
+    rcases hr with h | ⟨rfl, e', h⟩ <;> cases h
+    have := entryStep_fields hstep; simp [this]
+
+/-- `process_packet` touches neither the configuration nor the clock -/
+theorem ppOut_frame {a : AEAD} {s : NetcodeServer} {addr : Addr} {buf : Bytes} {r : ServerResult} {s' : NetcodeServer}
+    (ho : PPOut a s addr buf r s') :
+    s'.maxClients = s.maxClients ∧ s'.protocolId = s.protocolId ∧ s'.connectKey = s.connectKey ∧
+    s'.challengeKey = s.challengeKey ∧ s'.publicAddresses = s.publicAddresses ∧ s'.currentTime = s.currentTime ∧
+    s'.secure = s.secure := by
+  cases ho with
+  | pendRequest p sq v pid expire xnonce data w' R _ _ hfa hpf hdec hout hres =>
+    have h := hcr_frame hout hres; exact h
+  | newRequest sq v pid expire xnonce data R _ _ hfa hpf hdec hout hres => exact hcr_frame hout hres
+  | _ => simp
+
+theorem tableStep_length {cl cl' : Slots} {r : ServerResult} (h : TableStep cl cl' r) : cl'.length = cl.length := by
+  cases r with
+  | none => rw [← sessions_length, h, sessions_length]
+  | packetToSend ad out => rw [← sessions_length, h, sessions_length]
+  | payload id p => rw [← sessions_length, h, sessions_length]
+  | clientConnected id ad ud out => obtain ⟨i, c, _, rfl, _⟩ := h; simp
+  | clientDisconnected id ad out => obtain ⟨i, c, _, _, _, rfl⟩ := h; simp
+
+/-- every operation except `set_max_clients` leaves the limit alone -/
+theorem step_maxClients {a : AEAD} {s s' : NetcodeServer} {op : Op} {r : ServerResult} (hi : ServerInv s)
+    (h : step a s op = some (r, s')) (hop : ∀ m, op ≠ .setMaxClients m) : s'.maxClients = s.maxClients := by
+  cases op with
+  | packet addr buf =>
+    simp only [step] at h
+    cases hp : s.processPacket a addr buf with
+    | ok x => rw [hp] at h; cases h; exact (ppOut_frame (pp_ok hi hp)).1
+    | err e => exact e.elim
+    | panic m => rw [hp] at h; cases h
+  | update d =>
+    simp only [step] at h
+    cases hp : s.update d with
+    | ok x => rw [hp] at h; cases h; rw [update_ok hp]
+    | err e => exact e.elim
+    | panic m => rw [hp] at h; cases h
+  | updateClient id =>
+    simp only [step] at h
+    cases hp : s.updateClient a id with
+    | ok x =>
+      rw [hp] at h; cases h
+      cases hf : findClientSlotById s.clients id with
+      | none => rw [updateClient_absent a hf] at hp; cases hp; rfl
+      | some i =>
+        obtain ⟨c, hc, hid, _⟩ := findSlot_some hf
+        rcases updateClient_spec a hi hf hc with ⟨_, o, e⟩ | ⟨_, e | ⟨out, _, _, e⟩⟩ | ⟨⟨m, e⟩, _⟩ <;>
+          (rw [e] at hp; cases hp) <;> rfl
+    | err e => exact e.elim
+    | panic m => rw [hp] at h; cases h
+  | disconnect id =>
+    simp only [step] at h
+    cases hp : s.disconnect a id with
+    | ok x =>
+      rw [hp] at h; cases h
+      rcases disconnect_spec a s id with ⟨_, e⟩ | ⟨i, c, o, _, _, _, e⟩ <;> (rw [e] at hp; cases hp) <;> rfl
+    | err e => exact e.elim
+    | panic m => rw [hp] at h; cases h
+  | setMaxClients m => exact absurd rfl (hop m)
+  | sendPayload id p =>
+    simp only [step] at h
+    cases hp : s.generatePayloadPacket a id p with
+    | ok x =>
+      obtain ⟨⟨ad, out⟩, s''⟩ := x
+      rw [hp] at h; cases h
+      obtain ⟨i, c, _, _, _, _, _, rfl⟩ := generatePayload_ok hp
+      rfl
+    | err e => rw [hp] at h; cases h; rfl
+    | panic m => rw [hp] at h; cases h
+
+/-- the connected sessions never outnumber the slots, and the limit never exceeds the slots -/
+theorem Reach.count_le_slots {a : AEAD} {s : NetcodeServer} {log : List Event} (hr : Reach a s log) :
+    countConnected s.clients ≤ s.clients.length ∧ s.maxClients ≤ s.clients.length ∧
+    s.clients.length ≤ C.NETCODE_MAX_CLIENTS :=
+  ⟨count_le_length _, hr.inv.maxLe, hr.inv.lenLe⟩
+
+/-- States reachable without ever lowering the client limit: `set_max_clients m` is only used with
+    `m ≥ max_clients` (values above `NETCODE_MAX_CLIENTS` are clamped by the implementation). -/
+inductive ReachNL (a : AEAD) : NetcodeServer → Prop
+  | init {t m pid : Nat} {pa : List Addr} {sec : Bool} {k ck : Bytes} {s : NetcodeServer} :
+      NetcodeServer.new t m pid pa sec k ck = .ok s → ReachNL a s
+  | step {s s' : NetcodeServer} {op : Op} {r : ServerResult} :
+      ReachNL a s → step a s op = some (r, s') → (∀ m, op = .setMaxClients m → s.maxClients ≤ m) → ReachNL a s'
+
+theorem ReachNL.reach {a : AEAD} {s : NetcodeServer} (h : ReachNL a s) : ∃ log, Reach a s log := by
+  induction h with
+  | init h => exact ⟨[], .init h⟩
+  | step _ hs _ ih => obtain ⟨log, hl⟩ := ih; exact ⟨_, .step hl hs⟩
+
+/-- **As long as the limit is never lowered, there are exactly `max_clients` slots, hence at most `max_clients`
+    connected clients.** -/
+theorem ReachNL.count_le_max {a : AEAD} {s : NetcodeServer} (h : ReachNL a s) :
+    s.clients.length = s.maxClients ∧ countConnected s.clients ≤ s.maxClients := by
+  have key : s.clients.length = s.maxClients := by
+    induction h with
+    | init h =>
+      obtain ⟨_, h1, h2, _⟩ := new_inv h
+      rw [h1, h2, List.length_replicate]
+    | @step s s' op r hr hs hnl ih =>
+      obtain ⟨log, hl⟩ := hr.reach
+      have hi := hl.inv
+      by_cases hop : ∃ m, op = .setMaxClients m
+      · obtain ⟨m, rfl⟩ := hop
+        simp only [NS.step, Option.some.injEq, Prod.mk.injEq] at hs
+        rw [← hs.2]
+        obtain ⟨e1, e2, _⟩ := setMaxClients_eq s m
+        have hm := hnl m rfl
+        have hle := hi.lenLe
+        rw [e1, e2, List.length_append, List.length_replicate]
+        omega
+      · have hop' : ∀ m, op ≠ .setMaxClients m := fun m e => hop ⟨m, e⟩
+        rw [step_maxClients hi hs hop', ← ih]
+        rcases step_table hi hs with ht | ⟨_, n, hg⟩
+        · exact tableStep_length ht
+        · cases op with
+          | setMaxClients m => exact absurd rfl (hop' m)
+          | packet addr buf =>
+            -- a grown table only comes from `set_max_clients`; here the table step applies
+            simp only [NS.step] at hs
+            cases hp : s.processPacket a addr buf with
+            | ok x => rw [hp] at hs; cases hs; exact tableStep_length (ppOut_step hi (pp_ok hi hp))
+            | err e => exact e.elim
+            | panic m => rw [hp] at hs; cases hs
+          | update d =>
+            simp only [NS.step] at hs
+            cases hp : s.update d with
+            | ok x => rw [hp] at hs; cases hs; rw [update_ok hp]
+            | err e => exact e.elim
+            | panic m => rw [hp] at hs; cases hs
+          | updateClient id =>
+            simp only [NS.step] at hs
+            cases hp : s.updateClient a id with
+            | ok x => rw [hp] at hs; cases hs; exact tableStep_length (updateClient_step hi hp)
+            | err e => exact e.elim
+            | panic m => rw [hp] at hs; cases hs
+          | disconnect id =>
+            simp only [NS.step] at hs
+            cases hp : s.disconnect a id with
+            | ok x => rw [hp] at hs; cases hs; exact tableStep_length (disconnect_step hp).1
+            | err e => exact e.elim
+            | panic m => rw [hp] at hs; cases hs
+          | sendPayload id p =>
+            simp only [NS.step] at hs
+            cases hp : s.generatePayloadPacket a id p with
+            | ok x =>
+              obtain ⟨⟨ad, out⟩, s''⟩ := x
+              rw [hp] at hs; cases hs
+              rw [← sessions_length, generatePayload_step hp, sessions_length]
+            | err e => rw [hp] at hs; cases hs; rfl
+            | panic m => rw [hp] at hs; cases hs
+  exact ⟨key, key ▸ count_le_length _⟩
+
+/-! ### a full server refuses further handshakes without disturbing existing sessions -/
+
+/-- the datagram is a `ConnectionDenied` packet sealed with the server's global sequence number under some key -/
+def IsDenied (a : AEAD) (s : NetcodeServer) (out : Bytes) : Prop :=
+  ∃ key, Packet.connectionDenied.encode a C.NETCODE_MAX_PACKET_BYTES s.protocolId (some (s.globalSequence, key)) = .ok out
+
+/-- a connection request arriving while `connected ≥ max_clients` changes no slot and is answered, if at all, with
+    `ConnectionDenied` to its source -/
+theorem hcr_full {a : AEAD} {s : NetcodeServer} {addr : Addr} {v : Bytes} {pid expire : Nat} {xnonce data : Bytes}
+    {R : NetcodeServer.SRes} {r : ServerResult} {s' : NetcodeServer}
+    (ho : HcrOut a s addr v pid expire xnonce data R) (hr : HcrRes R r s')
+    (hfull : countConnected s.clients ≥ s.maxClients) :
+    s'.clients = s.clients ∧ (r = .none ∨ ∃ out, r = .packetToSend addr out ∧ IsDenied a s out) ∧
+    pendingFind s'.pendingClients addr = none ∨ (s' = s ∧ r = .none) := by
+  cases ho with
+  | err e => rcases hr with h | ⟨rfl, e', h⟩ <;> cases h; exact Or.inr ⟨rfl, rfl⟩
+  | none => rcases hr with h | ⟨rfl, e', h⟩ <;> cases h; exact Or.inr ⟨rfl, rfl⟩
+  | deniedErr t s1 e hacc hstep _ =>
+    rcases hr with h | ⟨rfl, e', h⟩ <;> cases h
+    refine Or.inl ⟨(entryStep_fields hstep).1, Or.inl rfl, ?_⟩
+    simp only [pendingFind_filter_ne, if_true]
+  | denied t s1 out hacc hstep _ hen =>
+    rcases hr with h | ⟨rfl, e', h⟩ <;> cases h
+    refine Or.inl ⟨(entryStep_fields hstep).1, Or.inr ⟨out, rfl, _, hen⟩, ?_⟩
+    simp only [pendingFind_filter_ne, if_true]
+  | challengeErr t s1 e hacc hstep hlt => omega
+  | challenge t s1 pkt out hacc hstep hlt hgen hen => omega
+
+/-- **No free slot** (when the limit was never lowered: exactly when `connected ≥ max_clients`): whatever arrives from
+    an address that is not connected — request, response, junk — leaves every slot as it is; the answer is nothing or
+    a `ConnectionDenied` to that address. -/
+theorem processPacket_full {a : AEAD} {s s' : NetcodeServer} {addr : Addr} {buf : Bytes} {r : ServerResult}
+    (hi : ServerInv s) (hff : firstFreeSlot s.clients = none) (hna : findClientByAddr s.clients addr = none)
+    (h : s.processPacket a addr buf = .ok (r, s')) :
+    s'.clients = s.clients ∧ (r = .none ∨ ∃ out, r = .packetToSend addr out ∧ IsDenied a s out) := by
+  have hfull : countConnected s.clients ≥ s.maxClients := by
+    rw [firstFree_none_count.mp hff]; exact hi.maxLe
+  have ho := pp_ok hi h
+  cases ho with
+  | short _ => exact ⟨rfl, Or.inl rfl⟩
+  | connErr i c e w' hfa => rw [hna] at hfa; cases hfa
+  | connDisconnect i c sq w' hfa => rw [hna] at hfa; cases hfa
+  | connPayload i c sq p w' hfa => rw [hna] at hfa; cases hfa
+  | connKeepAlive i c sq ci mc w' hfa => rw [hna] at hfa; cases hfa
+  | connOther i c sq pk w' hfa => rw [hna] at hfa; cases hfa
+  | pendErr p e w' hfa hpf hdec => exact ⟨rfl, Or.inl rfl⟩
+  | pendRequest p sq v pid expire xnonce data w' R _ _ hfa hpf hdec hout hres =>
+    rcases hcr_full hout hres hfull with ⟨h1, h2, _⟩ | ⟨rfl, rfl⟩
+    · exact ⟨h1, h2⟩
+    · exact ⟨rfl, Or.inl rfl⟩
+  | pendOther p sq pk w' hfa hpf hdec _ _ => exact ⟨rfl, Or.inl rfl⟩
+  | respRejected p sq ts td w' hfa hpf hdec _ => exact ⟨rfl, Or.inl rfl⟩
+  | respDropped p sq ts td w' hfa hpf hdec _ => exact ⟨rfl, Or.inl rfl⟩
+  | respFull p sq ts td w' out hfa hpf hdec _ _ _ hen => exact ⟨rfl, Or.inr ⟨out, rfl, _, hen⟩⟩
+  | respConnected p sq ts td w' i out hfa hpf hdec hct hid hff' hen => rw [hff] at hff'; cases hff'
+  | newErr e hfa hpf hdec => exact ⟨rfl, Or.inl rfl⟩
+  | newRequest sq v pid expire xnonce data R _ _ hfa hpf hdec hout hres =>
+    rcases hcr_full hout hres hfull with ⟨h1, h2, _⟩ | ⟨rfl, rfl⟩
+    · exact ⟨h1, h2⟩
+    · exact ⟨rfl, Or.inl rfl⟩
+
+/-- a datagram from a *connected* address never touches another session: the sessions stay, or that very session
+    ends (its own Disconnect packet) -/
+theorem processPacket_connected_only_self {a : AEAD} {s s' : NetcodeServer} {addr : Addr} {buf : Bytes}
+    {r : ServerResult} (hi : ServerInv s) {i : Nat} {c : Connection}
+    (hfa : findClientByAddr s.clients addr = some (i, c)) (h : s.processPacket a addr buf = .ok (r, s')) :
+    sessions s'.clients = sessions s.clients ∨
+      (r = .clientDisconnected c.clientId addr none ∧ s'.clients = s.clients.set i none) := by
+  have ho := pp_ok hi h
+  cases ho with
+  | short _ => exact Or.inl rfl
+  | connErr i' c' e w' hfa' hdec =>
+    rw [hfa] at hfa'; cases hfa'; exact Or.inl (sessions_set_same (findAddr_some hfa).1 rfl)
+  | connDisconnect i' c' sq w' hfa' hdec => rw [hfa] at hfa'; cases hfa'; exact Or.inr ⟨rfl, rfl⟩
+  | connPayload i' c' sq p w' hfa' hdec =>
+    rw [hfa] at hfa'; cases hfa'; exact Or.inl (sessions_set_same (findAddr_some hfa).1 rfl)
+  | connKeepAlive i' c' sq ci mc w' hfa' hdec =>
+    rw [hfa] at hfa'; cases hfa'; exact Or.inl (sessions_set_same (findAddr_some hfa).1 rfl)
+  | connOther i' c' sq pk w' hfa' hdec _ _ _ =>
+    rw [hfa] at hfa'; cases hfa'; exact Or.inl (sessions_set_same (findAddr_some hfa).1 rfl)
+  | pendErr p e w' hfa' => rw [hfa] at hfa'; cases hfa'
+  | pendRequest p sq v pid expire xnonce data w' R _ _ hfa' => rw [hfa] at hfa'; cases hfa'
+  | pendOther p sq pk w' hfa' => rw [hfa] at hfa'; cases hfa'
+  | respRejected p sq ts td w' hfa' => rw [hfa] at hfa'; cases hfa'
+  | respDropped p sq ts td w' hfa' => rw [hfa] at hfa'; cases hfa'
+  | respFull p sq ts td w' out hfa' => rw [hfa] at hfa'; cases hfa'
+  | respConnected p sq ts td w' i out hfa' => rw [hfa] at hfa'; cases hfa'
+  | newErr e hfa' => rw [hfa] at hfa'; cases hfa'
+  | newRequest sq v pid expire xnonce data R _ _ hfa' => rw [hfa] at hfa'; cases hfa'
+
 end NS
 end RenetVerif.Netcode
